@@ -2,7 +2,7 @@
 \* Texts {q1,q2,bad}, WrongHashes {x:rand,x:empty}, map + LRU capacity 1..2,
 \* 7 malformed kinds, 3 bad versions; histories of any length (the state space
 \* is finite); history variable off.  VIEW drops the edge label and outcome.
-\* Measured: 22 distinct states, 3740 edges generated (notes/C15.md).
+\* Measured: 22 distinct states, 3699 generated = 3 initial + 3696 edges, 1.5 s.
 SPECIFICATION Spec
 CONSTANTS
   Texts <- QTexts
@@ -17,6 +17,6 @@ CONSTANTS
   History = FALSE
 VIEW EdgeView
 INVARIANTS TypeOK Bound LruOK
-PROPERTY StepOK
+PROPERTIES ImplConforms ImplExtraOK
 ACTION_CONSTRAINT EmitEdge
 CHECK_DEADLOCK FALSE
